@@ -111,10 +111,10 @@ def family(chk, d, tier, seed, hosts, typed_every=4, host_every=9):
     else:
         mix = '{"mix"}'
         parts = [(dict(lv, L1=3, DStride=1, Stride=1, Rots="{0, 1, 2, 3, 5, 7, 11, 13}"), 1),
-                 (dict(lv, L2=2, DStride=1, Stride=1, VisModes=mix), 8),
+                 (dict(lv, L2=2, DStride=1, Stride=2, VisModes=mix), 8),
                  (dict(lv, L2=3, DStride=61, Stride=5, VisModes=mix), 8),
-                 (dict(lv, L3=1, DStride=1, Stride=5, VisModes=mix), 8),
-                 (dict(lv, L4=1, DStride=3, Stride=5, VisModes=mix), 8)]
+                 (dict(lv, L3=1, DStride=1, Stride=8, VisModes=mix), 8),
+                 (dict(lv, L4=1, DStride=9, Stride=8, VisModes=mix), 8)]
     recs = programs(chk, d, parts, seed if tier != "quick" else 0, parallel=4 if tier == "quick" else 12)
     recs.sort(key=lambda r: json.dumps(r, sort_keys=True))
     ins = []
